@@ -259,6 +259,19 @@ func (w *World) SoilFile() (name, content string) {
 	return "soil_" + w.Loc + ".txt", b.String()
 }
 
+// earlyFieldDays: by how many days the extra field EARLYFLD (plot 19003) starts before the main field; 0 = not built
+// (one-file-per-year layout, which has no "series begins mid-year" case, or a start too close to 1 January).
+func (w *World) earlyFieldDays() int {
+	if !w.BadEnt || w.Cfg.WeatherLayout == 0 {
+		return 0
+	}
+	k := w.Start().YearDay() - 1
+	if k > 20 {
+		k = 20
+	}
+	return k
+}
+
 func (w *World) PolyFile() string {
 	e := w.eol()
 	var b strings.Builder
@@ -273,6 +286,9 @@ func (w *World) PolyFile() string {
 	if w.BadEnt {
 		fmt.Fprintf(&b, "19001 %s %s %02d %02d %d unknown field%s", w.Soil.ID, pad("NOFIELD", 9), w.GWHi, w.GWLo, 0, e)
 		fmt.Fprintf(&b, "19002 %s %s %02d %02d %d tillage inside crop%s", w.Soil.ID, pad("TILLBAD", 9), w.GWHi, w.GWLo, 0, e)
+		if w.earlyFieldDays() > 0 {
+			fmt.Fprintf(&b, "19003 %s %s %02d %02d %d starts before the late weather series%s", w.Soil.ID, pad("EARLYFLD", 9), w.GWHi, w.GWLo, 0, e)
+		}
 	}
 	b.WriteString("end" + e)
 	return b.String()
@@ -312,6 +328,18 @@ func (w *World) RotationFile() (name, content string) {
 	if w.BadEnt {
 		for _, r := range w.Rot {
 			b.WriteString(line("TILLBAD", r, csv) + e)
+		}
+		if k := w.earlyFieldDays(); k > 0 {
+			// the same rotation on a field whose simulation starts k days earlier (still inside the start year)
+			for i, r := range w.Rot {
+				if i == 0 {
+					r.Harvest -= Day(k)
+					if r.Sow >= r.Harvest {
+						r.Sow = r.Harvest - 60
+					}
+				}
+				b.WriteString(line("EARLYFLD", r, csv) + e)
+			}
 		}
 	}
 	if csv {
@@ -633,6 +661,12 @@ func (w *World) Files(oc *OutputCfg, ww *WeatherWorld) FileSet {
 	}
 	if w.Cfg.Preco {
 		fs["weather/wx/preco.txt"] = precoFile(w.eol())
+	}
+	if w.BadEnt && ww != nil && w.earlyFieldDays() > 0 {
+		// a series that begins on this field's first simulated day: it covers the field, but not the field that starts earlier
+		for name, content := range ww.Files(w.Cfg.WeatherLayout, w.Cfg.NumHeader, w.FCode+"late", w.eol(), w.Start(), ww.Spec.LastDay, nil, ";") {
+			fs["weather/wx/"+name] = content
+		}
 	}
 	if w.BadEnt && ww != nil {
 		gap := w.Start() + (w.Cfg.End-w.Start())/2
